@@ -1,15 +1,24 @@
-(* The validations of Servo.py and DCMotor.py that let IEEE specials through, modelled over
-   floats WITH specials (Base/XFloat.v).  These are the three places behind the listed
-   findings of C19_servo / C19_motor; everything else about the two classes is modelled over
-   finite floats in Host/Servo.v and Host/DCMotor.v.
+(* The validations of Servo.py and DCMotor.py that face IEEE specials, modelled over floats WITH
+   specials (Base/XFloat.v).  These are the places that used to let NaN / infinities through
+   (findings F-C19-servo-nonfinite-bound, F-C19-motor-nan-speed, F-C19-motor-nonfinite-duration,
+   repaired in the project; the text below is the repaired code).  Everything else about the
+   two classes is modelled over finite floats in Host/Servo.v and Host/DCMotor.v.
 
-     Servo.__init__      if min_angle >= max_angle: raise ValueError
-                         if min_pulse_us >= max_pulse_us: raise ValueError
-     DCMotor._clamp_speed  speed = float(value); if speed > 1.0: return 1.0
+     Servo.__init__      if not min_angle < max_angle: raise ValueError
+                         if not min_pulse_us < max_pulse_us: raise ValueError
+                         if not all(math.isfinite(b) for b in (the four bounds)): raise ValueError
+     DCMotor._clamp_speed  speed = float(value)                       (TypeError)
+                           if math.isnan(speed): raise ValueError
+                           if speed > 1.0: return 1.0
                            if speed < -1.0: return -1.0; return speed
-     DCMotor.run_for     if duration_ms < 0: raise ValueError
+     DCMotor._check_duration  if duration_ms < 0: raise ValueError
+                              if not math.isfinite(duration_ms): raise ValueError
+                              (an int beyond the float range counts as not finite)
+     DCMotor.set_speed   speed = self._clamp_speed(value); self._speed = speed; self._apply_speed(speed)
+     DCMotor.backward    magnitude = abs(self._clamp_speed(speed)); self.set_speed(-magnitude)
+     DCMotor.run_for     self._check_duration(duration_ms)
                          self.set_speed(speed); _sleep(duration_ms); self.stop()
-     DCMotor.ramp        if duration_ms < 0: raise ValueError; target = clamp(...)
+     DCMotor.ramp        self._check_duration(duration_ms); target = clamp(...)
                          delay_ms = duration_ms / 20
                          for step in 1..20: self.set_speed(...); if delay_ms > 0: _sleep(delay_ms)
      Reduino.Utils.sleep if duration < 0: raise ValueError; time.sleep(float(duration) / 1000.0)
@@ -17,20 +26,23 @@
                          ("timestamp out of range"), ValueError for negatives
 
    [sleep_rejects] is a LOWER bound of what the real sleep rejects (huge finite durations are
-   rejected too; they are outside this model and outside the guard of the finding).
+   rejected too by the platform's time.sleep; they are outside this model).  The calls below keep the
+   raise points inside _sleep, as the code does; Proofs/ActuatorsXP.v shows that no duration that
+   passes _check_duration reaches them.
    No proofs in this file. *)
 From Coq Require Import ZArith QArith List Bool.
 From RV Require Import Base.Wire Base.NumM Base.XFloat Gen.C19Motor Host.DCMotor.
 Import ListNotations.
 Open Scope Q_scope.
 
-(* ---- Servo.__init__ : the two bound checks ---- *)
+(* ---- Servo.__init__ : the three bound checks ---- *)
 Definition servo_bounds_accepted (mina maxa minp maxp : xfloat) : bool :=
-  negb (xge mina maxa) && negb (xge minp maxp).
+  xlt mina maxa && xlt minp maxp && forallb xfinite [mina; maxa; minp; maxp].
 
-(* ---- DCMotor._clamp_speed on a float ---- *)
-Definition xclamp (x : xfloat) : xfloat :=
-  if xgt x (XFin 1) then XFin 1 else if xlt x (XFin (-(1))) then XFin (-(1)) else x.
+(* ---- DCMotor._clamp_speed on a float; None = raises ValueError ---- *)
+Definition xclamp (x : xfloat) : option xfloat :=
+  if xnan x then None
+  else if xgt x (XFin 1) then Some (XFin 1) else if xlt x (XFin (-(1))) then Some (XFin (-(1))) else Some x.
 
 Definition in_unit (x : xfloat) : Prop :=
   match x with XFin q => -(1) <= q /\ q <= 1 | _ => False end.
@@ -39,8 +51,8 @@ Definition in_unit (x : xfloat) : Prop :=
 Inductive xexn : Type := XValueError | XTypeError | XOverflowError.
 Inductive xresult : Type := XOk | XRaised (k : xexn).
 
-(* the check  duration_ms < 0  of run_for / ramp *)
-Definition dur_rejected (d : xfloat) : bool := xlt d (XFin 0).
+(* DCMotor._check_duration on a float: true = raises ValueError *)
+Definition dur_rejected (d : xfloat) : bool := xlt d (XFin 0) || negb (xfinite d).
 
 (* what Reduino.Utils.sleep + time.sleep do with a duration (lower bound of the rejections) *)
 Definition sleep_rejects (d : xfloat) : option xexn :=
@@ -55,13 +67,50 @@ Definition sleep_rejects (d : xfloat) : option xexn :=
 Definition xdiv20 (d : xfloat) : xfloat :=
   match d with XFin q => XFin (q / 20) | other => other end.
 
-(* run_for(duration_ms, speed) with a float duration that may be special; the speed is a
-   finite scalar.  Finite accepted durations behave exactly as [mstep m (MRunFor ..)]. *)
-Definition run_for_x (m : motor) (d : xfloat) (v : pynum) : motor * list mev * xresult :=
-  if dur_rejected d then (m, [], XRaised XValueError)
-  else match clamp_speed v with
-       | None => (m, [], XRaised XTypeError)
-       | Some q =>
+(* a speed argument: an int / finite float / bool / non-number, or a float that may be special *)
+Inductive xarg : Type := XNum (v : pynum) | XSpec (x : xfloat).
+
+(* _clamp_speed on any scalar argument: the clamped speed or the exception kind *)
+Definition clamp_speed_x (a : xarg) : Q + xexn :=
+  match a with
+  | XNum v => match clamp_speed v with Some q => inl q | None => inr XTypeError end
+  | XSpec x =>
+      match xclamp x with
+      | None => inr XValueError
+      | Some (XFin q) => inl q
+      | Some _ => inr XOverflowError     (* never: xclamp returns finite floats (xclamp_result) *)
+      end
+  end.
+
+Definition raised_x (m : motor) (k : xexn) : motor * list mev * xresult := (m, [], XRaised k).
+Definition ok_x (g : lastcmd) (r : motor * list mev) : motor * list mev * xresult :=
+  (with_ghost (fst r) g, snd r, XOk).
+
+(* the calls of DCMotor that take a speed and/or a duration, with arguments that may be special *)
+Inductive mopx : Type :=
+| XSetSpeed (a : xarg)
+| XBackward (a : xarg)
+| XRamp (t : xarg) (d : xfloat)
+| XRunFor (d : xfloat) (v : xarg).
+
+Definition set_speed_x (m : motor) (a : xarg) : motor * list mev * xresult :=
+  match clamp_speed_x a with
+  | inr k => raised_x m k
+  | inl q => ok_x LastOther (set_speed_q m q)
+  end.
+
+Definition backward_x (m : motor) (a : xarg) : motor * list mev * xresult :=
+  match clamp_speed_x a with
+  | inr k => raised_x m k
+  | inl q => ok_x LastOther (set_speed_q m (- qabs q))
+  end.
+
+(* run_for(duration_ms, speed).  Finite accepted durations behave exactly as [mstep m (MRunFor ..)]. *)
+Definition run_for_x (m : motor) (d : xfloat) (v : xarg) : motor * list mev * xresult :=
+  if dur_rejected d then raised_x m XValueError
+  else match clamp_speed_x v with
+       | inr k => raised_x m k
+       | inl q =>
            let '(m1, e1) := set_speed_q m q in
            match sleep_rejects d with
            | Some k => (m1, e1, XRaised k)            (* raised inside _sleep: stop() never runs *)
@@ -71,12 +120,12 @@ Definition run_for_x (m : motor) (d : xfloat) (v : pynum) : motor * list mev * x
            end
        end.
 
-(* ramp(target, duration_ms) with a float duration that may be special *)
-Definition ramp_x (m : motor) (t : pynum) (d : xfloat) : motor * list mev * xresult :=
-  if dur_rejected d then (m, [], XRaised XValueError)
-  else match clamp_speed t with
-       | None => (m, [], XRaised XTypeError)
-       | Some target =>
+(* ramp(target, duration_ms) *)
+Definition ramp_x (m : motor) (t : xarg) (d : xfloat) : motor * list mev * xresult :=
+  if dur_rejected d then raised_x m XValueError
+  else match clamp_speed_x t with
+       | inr k => raised_x m k
+       | inl target =>
            let delay := xdiv20 d in
            if xgt delay (XFin 0) then
              match sleep_rejects delay with
@@ -91,7 +140,52 @@ Definition ramp_x (m : motor) (t : pynum) (d : xfloat) : motor * list mev * xres
                  (with_ghost (fst r) LastOther, snd r, XOk)
              end
            else
-             (* delay_ms > 0 is False (0, -0.0 or NaN): no sleep at all *)
+             (* delay_ms > 0 is False: no sleep at all *)
              let r := ramp_run m target 0 in
              (with_ghost (fst r) LastOther, snd r, XOk)
        end.
+
+Definition mstep_x (m : motor) (o : mopx) : motor * list mev * xresult :=
+  match o with
+  | XSetSpeed a => set_speed_x m a
+  | XBackward a => backward_x m a
+  | XRamp t d => ramp_x m t d
+  | XRunFor d v => run_for_x m d v
+  end.
+
+(* histories that mix ordinary calls (Host/DCMotor.v) and calls with special arguments *)
+Definition xstate (r : motor * list mev * xresult) : motor := fst (fst r).
+Definition xevents (r : motor * list mev * xresult) : list mev := snd (fst r).
+Definition xres (r : motor * list mev * xresult) : xresult := snd r.
+
+Definition anyop : Type := (mop + mopx)%type.
+
+Definition step_any (m : motor) (o : anyop) : motor :=
+  match o with inl op => mstate (mstep m op) | inr ox => xstate (mstep_x m ox) end.
+
+Definition mrun_any (ops : list anyop) (m : motor) : motor := fold_left step_any ops m.
+
+(* the ordinary call a call with special arguments amounts to, when it is not rejected outright:
+   a finite float is itself, +inf / -inf as a speed clamp like 2 / -2; None = the call raises ValueError
+   whatever its other argument is (NaN speed, NaN or infinite duration) *)
+Definition arg_lower (a : xarg) : option pynum :=
+  match a with
+  | XNum v => Some v
+  | XSpec (XFin q) => Some (PF q)
+  | XSpec XPInf => Some (PI 2)
+  | XSpec XNInf => Some (PI (-2))
+  | XSpec XNaN => None
+  end.
+
+Definition dur_lower (d : xfloat) : option pynum :=
+  match d with XFin q => Some (PF q) | _ => None end.
+
+Definition lower (o : mopx) : option mop :=
+  match o with
+  | XSetSpeed a => match arg_lower a with Some v => Some (MSetSpeed v) | None => None end
+  | XBackward a => match arg_lower a with Some v => Some (MBackward (Some v)) | None => None end
+  | XRamp t d =>
+      match arg_lower t, dur_lower d with Some t', Some d' => Some (MRamp t' d') | _, _ => None end
+  | XRunFor d v =>
+      match dur_lower d, arg_lower v with Some d', Some v' => Some (MRunFor d' v') | _, _ => None end
+  end.
